@@ -15,7 +15,14 @@
 //	past_ms  the rps schedule is Start()ed that many ms in the past (0: self-start at first Next);
 //	         >= 2000 makes tokens overdue enough for discard_overflow
 //
-// Observation line:
+//	burst <perinst 0|1> <T> <A> <instances> <rps-spec>
+//
+//	high-contention run without an operation log: <instances> instances started at once, zero-cost
+//	shots, lock-free mocks, the real schedule unwrapped; thousands of simultaneous counter updates.
+//	Observation: "<outcome> <started> <shots+discards> <Request-shots> <Response-shots>
+//	<acquired-released> <unfired_ok 0|1> <InstanceStart-InstanceFinish>"
+//
+// Observation line (pool):
 //
 //	<outcome> <acquired> <released> <shots> <discarded> <Request> <Response> <InstanceStart>
 //	<InstanceFinish> <drawn> <badsamples> | <log>
@@ -243,8 +250,91 @@ func buildSched(spec string) core.Schedule {
 	return schedule.NewComposite(parts...)
 }
 
+// ---- burst: lock-free mocks
+
+type burstProvider struct {
+	left               atomic.Int64
+	acquired, released atomic.Int64
+}
+
+func (p *burstProvider) Run(ctx context.Context, _ core.ProviderDeps) error { <-ctx.Done(); return nil }
+func (p *burstProvider) Acquire() (core.Ammo, bool) {
+	if p.left.Add(-1) < 0 {
+		return nil, false
+	}
+	p.acquired.Add(1)
+	return struct{}{}, true
+}
+func (p *burstProvider) Release(core.Ammo) { p.released.Add(1) }
+
+type burstGun struct{ shots *atomic.Int64 }
+
+func (g *burstGun) Bind(core.Aggregator, core.GunDeps) error { return nil }
+func (g *burstGun) Shoot(core.Ammo)                            { g.shots.Add(1) }
+
+type burstAggr struct{ discarded atomic.Int64 }
+
+func (a *burstAggr) Run(ctx context.Context, _ core.AggregatorDeps) error { <-ctx.Done(); return nil }
+func (a *burstAggr) Report(core.Sample)                                   { a.discarded.Add(1) }
+
+func runBurst(f []string) string {
+	perInst := f[1] == "1"
+	T, _ := strconv.Atoi(f[2])
+	A, _ := strconv.Atoi(f[3])
+	n, _ := strconv.Atoi(f[4])
+	prov := &burstProvider{}
+	prov.left.Store(int64(A))
+	ag := &burstAggr{}
+	var shots atomic.Int64
+	metrics := engine.Metrics{
+		Request:        &monitoring.Counter{},
+		Response:       &monitoring.Counter{},
+		InstanceStart:  &monitoring.Counter{},
+		InstanceFinish: &monitoring.Counter{},
+	}
+	conf := engine.InstancePoolConfig{
+		ID:              "p",
+		Provider:        prov,
+		Aggregator:      ag,
+		NewGun:          func() (core.Gun, error) { return &burstGun{shots: &shots}, nil },
+		RPSPerInstance:  perInst,
+		NewRPSSchedule:  func() (core.Schedule, error) { return buildSched(f[5]), nil },
+		StartupSchedule: schedule.NewOnce(int64(n)),
+	}
+	eng := engine.New(zap.NewNop(), metrics, engine.Config{Pools: []engine.InstancePoolConfig{conf}})
+	done := make(chan error, 1)
+	go func() {
+		err := eng.Run(context.Background())
+		eng.Wait()
+		done <- err
+	}()
+	outcome := "ok"
+	select {
+	case err := <-done:
+		if err != nil {
+			outcome = "err"
+		}
+	case <-time.After(60 * time.Second):
+		return "hang"
+	}
+	started := metrics.InstanceStart.Get()
+	total := shots.Load() + ag.discarded.Load()
+	unfired := prov.acquired.Load() - total
+	unfiredOK := unfired == 0
+	if !perInst {
+		unfiredOK = unfired >= 0 && unfired <= started-1
+	}
+	_ = T
+	return fmt.Sprintf("%s %d %d %d %d %d %s %d", outcome, started, total, metrics.Request.Get()-shots.Load(),
+		metrics.Response.Get()-shots.Load(), prov.acquired.Load()-prov.released.Load(), vh.B(unfiredOK || started == 0),
+		started-metrics.InstanceFinish.Get())
+}
+
 func runCase(c string) string {
 	f := strings.Split(c, " ")
+	if f[0] == "burst" && len(f) == 6 {
+		return runBurst(f)
+	}
 	if f[0] != "pool" || len(f) != 9 {
 		return "unknown-case"
 	}
@@ -481,6 +571,31 @@ func gen(r *vh.Rand, tier string) []string {
 		n = 5000
 	}
 	var out []string
+	// high contention: many instances, zero-cost shots, 10^4..10^5 tokens
+	out = append(out, "burst 0 40000 1000000 16 once:40000", "burst 1 3000 1000000 32 once:3000")
+	nb := 0
+	if tier == "thorough" {
+		nb = 40
+	}
+	for i := 0; i < nb; i++ {
+		inst := r.PickInt([]int{16, 24, 32, 48, 64})
+		per := r.Chance(1, 3)
+		T := r.Range(10000, 100000)
+		spec := fmt.Sprintf("once:%d", T)
+		if r.Chance(1, 3) {
+			T = 20000
+			spec = "const:400000:50"
+		}
+		if per {
+			T = T / inst
+			spec = fmt.Sprintf("once:%d", T)
+		}
+		A := 10000000
+		if !per && r.Chance(1, 3) {
+			A = r.Range(T/2, T+5)
+		}
+		out = append(out, fmt.Sprintf("burst %s %d %d %d %s", vh.B(per), T, A, inst, spec))
+	}
 	for i := 0; i < n; i++ {
 		p := genRPS(r, tier)
 		st := genStartup(r, tier)
